@@ -1,63 +1,84 @@
-"""./check <property> [--tier quick|thorough] [--replay file]  — one property, one verdict."""
-import argparse, importlib, json, os, random, sys, time
+"""./check <property> [--tier quick|thorough] [--replay file]  — one property, one verdict.
+
+1. regenerate Gen/Extracted.v from /repo, re-check the property's theorems (full .vo build), read Print Assumptions;
+2. rebuild the extracted model when needed; 3. run the property's streams: implementation vs model (correspondence,
+through the property's view) and implementation vs Spec (the extracted definitions the theorems are about);
+4. verdict: exit 0, or VIOLATION with a concrete failing input when one was found, else `no-failing-input-found`."""
+import argparse, importlib, json, os, random, sys, time, traceback
 sys.path.insert(0, os.path.dirname(os.path.abspath(__file__)))
 import lib
 sys.path.insert(0, lib.REPO_SRC)
 
+
 def main():
-    ap = argparse.ArgumentParser(); ap.add_argument("prop"); ap.add_argument("--tier", default=os.environ.get("VERIF_TIER", "quick"))
+    ap = argparse.ArgumentParser(); ap.add_argument("prop")
+    ap.add_argument("--tier", default=os.environ.get("VERIF_TIER") or "quick", choices=["quick", "thorough"])
     ap.add_argument("--replay")
     a = ap.parse_args()
-    seed = int(os.environ.get("VERIF_SEED", "1")); t0 = time.time()
-    P = importlib.import_module("props." + a.prop.lower())
-    trusted = ["Coq 8.16.1 kernel, vm_compute", "harness/extract_consts.py (constants regenerated from /repo/src)",
-               "extraction: ExtrOcamlBasic, ExtrOCamlInt63, ExtrOCamlFloats; ocaml/driver.ml", "correspondence harness (this run)"] + P.TRUSTED
-    unproved = None; assumptions = {}; names = []
-    try:
-        assumptions, names = lib.build(P.COQ_TARGET)
-    except lib.BuildError as e:
-        unproved = e.what
-        # the model may still be usable for the failing-input search
+    prop = a.prop.upper()
+    try: seed = int(os.environ.get("VERIF_SEED") or "1")
+    except ValueError: seed = 1
+    t0 = time.time()
+    P = importlib.import_module("props." + prop.lower())
+    trusted = ["Coq 8.16.1 kernel and coqc; vm_compute is used in proofs, native_compute is not",
+               "harness/extract_consts.py: the translator that regenerates coq/theories/Gen/Extracted.v (packet templates, enum "
+               "tables, port tables, class-acceptance table) from /repo/src on every run",
+               "extraction to OCaml: " + lib.EXTRACT_DIRECTIVES,
+               "ocaml/driver.ml (line protocol glue), OCaml 4.13.1, the correspondence harness under harness/ (this run)",
+               "hand-written model of the function bodies (coq/theories/Model), tied to the code only by the correspondence streams of this run"] + P.TRUSTED
+    assumptions, names, errors = lib.build(P.COQ_TARGET)
     rnd = random.Random(seed)
-    cases = P.corpus() + P.cases(a.tier, rnd) if not a.replay else [json.load(open(a.replay))["input"]]
-    impl_out = [P.impl(c) for c in cases]
-    disagreements = []; failing = []
-    model_ok = os.path.exists(lib.MODEL)
-    if model_ok:
-        try:
-            model_out = [P.parse_model(l) for l in lib.run_model([P.model_line(c) for c in cases])]
-            disagreements = [(c, i, m) for c, i, m in zip(cases, impl_out, model_out) if P.view(i) != P.view(m)]
-            if unproved or disagreements:
-                # search for a concrete failing input with the extracted Spec checker
-                verdicts = lib.run_model([P.check_line(c, i) for c, i in zip(cases, impl_out)])
-                failing = [(c, i) for c, i, v in zip(cases, impl_out, verdicts) if v != "true"]
-        except lib.BuildError as e:
-            unproved = unproved or e.what
-    else:
-        failing = [(c, i) for c, i in zip(cases, impl_out) if not P.python_oracle(c, i)]
-    known = lib.load_known_findings(a.prop)
-    new_failing = []
-    for c, i in failing:
-        k = next((txt for rx, txt in known if rx.search(P.describe(c))), None)
-        if k: print(f"KNOWN-FINDING: property={a.prop} {k}")
-        else: new_failing.append((c, i))
-    nontrivial = len({P.describe(c) for c in cases if P.nontrivial(c)})
-    coverage = {"obligations": max(1, len(names)), "discharged": 0 if unproved else max(1, len(names)),
-                "checker_cmd": f"make -C coq theories/Props/{P.COQ_TARGET}.vo", "trusted_base": trusted,
-                "assumptions_printed": assumptions, "theorems": names,
-                "evaluations": len(cases), "distinct_nontrivial": nontrivial, "rule": P.RULE,
-                "samples": [P.sample(c, i) for c, i in list(zip(cases, impl_out))[:3]],
-                "input_distribution": P.distribution(cases), "disagreements": len(disagreements),
-                "exhaustive": P.exhaustive(a.tier)}
+    out = lib.Outcome()
+    try:
+        if a.replay:
+            rp = lib.unjson(json.load(open(a.replay)))
+            if rp.get("input") is None:
+                print(f"{prop}: replay file names no input ({rp.get('what_no_longer_checks')}); re-running the quick tier instead")
+                P.run("quick", rnd, out)
+            else: P.replay(rp, out)
+        else:
+            P.run(a.tier, rnd, out)
+    except lib.BuildError as e:
+        errors.append("model: " + e.what)
+    except Exception as e:      # a harness stream that cannot run is "no longer shown", never silence
+        errors.append("harness stream failed: " + "".join(traceback.format_exception_only(type(e), e)).strip()[:300])
+        lib.save_log("harness-" + prop, traceback.format_exc())
+    known = lib.load_known_findings(prop)
+    new_failing = []; n_fail = len(out.failing); n_dis = len(out.disagreements)
+    for f in [f for f in out.failing if f]:
+        k = next((txt for rx, txt in known if rx.search(f["describe"])), None)
+        if k: print(f"KNOWN-FINDING: property={prop} {k}")
+        else: new_failing.append(f)
+    coverage = {"obligations": max(1, len(names)), "discharged": 0 if [e for e in errors if not e.startswith(("model:", "harness"))] else max(1, len(names)),
+                "checker_cmd": f"make -C coq theories/Props/{P.COQ_TARGET}.vo   (coqc 8.16.1, full .vo build; Print Assumptions read from its output)",
+                "trusted_base": trusted, "assumptions_printed": assumptions, "theorems": names,
+                "evaluations": out.evaluations, "distinct_nontrivial": len(out.nontrivial), "rule": P.RULE,
+                "samples": out.samples[:8] or [{"note": "no case was run"}], "input_distribution": out.distribution, "streams": out.streams,
+                "disagreements": n_dis, "spec_failures": n_fail, "exhaustive": bool(out.exhaustive),
+                "build_errors": errors, "notes": out.notes, "requirement": P.REQUIREMENT}
+    dis = [d for d in out.disagreements if d]
     if new_failing:
-        c, i = new_failing[0]
-        path = lib.write_replay(a.prop, {"property": a.prop, "kind": "failing-input", "input": c, "impl_output": P.sample(c, i),
-                                         "spec_requirement": P.REQUIREMENT, "replay_cmd": f"./check {a.prop} --replay <this file>"})
-        lib.finish(a.prop, a.tier, seed, t0, coverage, P.ASSUMPTIONS, len(new_failing), path)
-    if unproved or disagreements:
-        what = unproved or f"correspondence: model and implementation differ on {len(disagreements)} inputs (first: {P.describe(disagreements[0][0])})"
-        path = lib.write_replay(a.prop, {"property": a.prop, "kind": "unproved", "what_no_longer_checks": what,
-                                         "first_disagreement": P.sample(*disagreements[0][:2]) if disagreements else None})
-        lib.finish(a.prop, a.tier, seed, t0, coverage, P.ASSUMPTIONS, 1, path, unproved=True)
-    lib.finish(a.prop, a.tier, seed, t0, coverage, P.ASSUMPTIONS, 0)
+        f = new_failing[0]
+        path = lib.write_replay(prop, {"property": prop, "kind": "failing-input", "stream": f["stream"], "describe": f["describe"],
+                                       "input": f["input"], "impl_output": f["impl"], "spec_requires": f["expected"],
+                                       "requirement": P.REQUIREMENT, "also_broken": errors, "failing_inputs_found": len(new_failing)})
+        lib.write_evidence(prop, a.tier, seed, t0, coverage, P.ASSUMPTIONS, len(new_failing))
+        print(f"{prop}: {f['describe']}\n   implementation: {lib.clip(f['impl'], 300)}\n   Spec requires:  {lib.clip(f['expected'], 300)}")
+        print(f"VIOLATION property={prop} replay={path}"); sys.exit(1)
+    if errors or dis:
+        what = "; ".join(errors) if errors else ""
+        if dis: what += ("; " if what else "") + (f"correspondence: model and implementation differ on {n_dis} cases of this run "
+                                                  f"(first: stream {dis[0]['stream']}, {dis[0]['describe']})")
+        path = lib.write_replay(prop, {"property": prop, "kind": "unproved", "what_no_longer_checks": what,
+                                       "theorems": names, "first_disagreement": dis[0] if dis else None,
+                                       "input": dis[0]["input"] if dis else None, "stream": dis[0]["stream"] if dis else None})
+        lib.write_evidence(prop, a.tier, seed, t0, coverage, P.ASSUMPTIONS, 1)
+        print(f"{prop}: no longer shown to hold: {what}")
+        print(f"VIOLATION property={prop} replay={path} no-failing-input-found"); sys.exit(1)
+    lib.write_evidence(prop, a.tier, seed, t0, coverage, P.ASSUMPTIONS, 0)
+    print(f"{prop} {a.tier}: held on everything explored ({out.evaluations} cases in {len(out.streams)} streams, "
+          f"{coverage['discharged']}/{coverage['obligations']} theorems re-checked, {time.time() - t0:.1f} s)")
+    sys.exit(0)
+
+
 main()
